@@ -811,7 +811,13 @@ func VerifC19Limits() {
 		verifrt.Assume(name != "." && name != "..")
 		verifrt.Mark(vMarkOpBegin)
 		var st nfstypes.Nfsstat3
-		switch verifrt.Choose("proc", pCREATE, pMKDIR, pSYMLINK) {
+		proc := verifrt.Choose("proc", pCREATE, pMKDIR, pSYMLINK, pRENAME)
+		switch proc {
+		case pRENAME:
+			// the new name of a rename is a name like any other (the old one is any existing short name)
+			fn := w.vName("fn")
+			verifrt.Assume(fn != "." && fn != "..")
+			st = w.nfs.NFSPROC3_RENAME(nfstypes.RENAME3args{From: nfstypes.Diropargs3{Dir: dh, Name: fn}, To: nfstypes.Diropargs3{Dir: dh, Name: name}}).Status
 		case pCREATE:
 			st = w.nfs.NFSPROC3_CREATE(nfstypes.CREATE3args{Where: nfstypes.Diropargs3{Dir: dh, Name: name}}).Status
 		case pMKDIR:
@@ -837,10 +843,15 @@ func VerifC19Limits() {
 		}
 		if L <= nameMax {
 			// the only admissible refusals: the name exists already, or the disk / inode table is full
-			verifrt.Assert(st == nfstypes.NFS3_OK || st == nfstypes.NFS3ERR_EXIST || (!nofail && st == nfstypes.NFS3ERR_NOSPC), "mon:name-up-to-name_max-accepted")
+			noent := proc == pRENAME && st == nfstypes.NFS3ERR_NOENT
+			verifrt.Assert(st == nfstypes.NFS3_OK || st == nfstypes.NFS3ERR_EXIST || noent || (!nofail && st == nfstypes.NFS3ERR_NOSPC), "mon:name-up-to-name_max-accepted")
 			if st == nfstypes.NFS3_OK {
-				verifrt.Assert(m.appends == 1 && m.durable, "mon:created-durably")
+				// (a rename of a name onto itself succeeds without writing anything)
+				verifrt.Assert((m.appends == 1 || (proc == pRENAME && m.appends == 0)) && m.durable, "mon:created-durably")
 				verifrt.Cover("name-ok")
+				if proc == pRENAME {
+					verifrt.Cover("rename-ok")
+				}
 			}
 		} else {
 			verifrt.Assert(st != nfstypes.NFS3_OK && m.appends == 0, "name-beyond-name_max-refused-without-effect")
